@@ -300,6 +300,7 @@ pub enum Stat {
     LiveSuffixRuns,
     TermRaises,
     LiveSlowSnapRuns,
+    AppliedUnpersisted,
     _N,
 }
 pub const NSTAT: usize = Stat::_N as usize;
@@ -342,6 +343,7 @@ pub const STAT_NAMES: [&str; NSTAT] = [
     "live_suffix_runs",
     "term_raises",
     "live_slow_snapshot_suffix_runs",
+    "entries_handed_out_before_persisted",
 ];
 
 pub struct Ctx {
